@@ -11,6 +11,7 @@
 -/
 import ICal.Lemmas.Ser
 import ICal.Lemmas.BodiesSer
+import ICal.Lemmas.BodiesSerLines
 namespace ICal.C10
 
 /-! ### with sorting on, insertion order of distinct names is immaterial -/
@@ -188,5 +189,19 @@ theorem body_property_items (sorted : Bool) (c : Comp) :
     ∃ l, Gen.BodiesSer.Component_property_items (name_to_ical := Bodies.nameToIcalP) (sorted_keys := Bodies.sortedKeysP) (keys := Bodies.keysP) (getitem := Bodies.getitemP)
         c true sorted = .ok l ∧ l.map Bodies.ivItem = items sorted c :=
   Bodies.property_items_items sorted c
+
+/-- the regenerated `Component.content_line(name, value, sorted)` is the model's line of the item the serialiser sees -/
+theorem body_content_line (c : Comp) (n : Str) (v : PyRT.PyIV) (sorted : Bool) :
+    Bodies.contentLineP c n v sorted = Bodies.liftL (itemLine sorted (Bodies.ivItem (n, v))) :=
+  Bodies.content_line_eq c n v sorted
+
+/-- the regenerated `Component.content_lines(sorted)` is the model's `contentLines` followed by the empty line -/
+theorem body_content_lines (c : Comp) (sorted : Bool) :
+    Bodies.contentLinesP c sorted = Bodies.liftL ((contentLines sorted c).map (fun ls => ls ++ [[]])) :=
+  Bodies.content_lines_eq c sorted
+
+/-- the regenerated `Component.to_ical(sorted)` is the model's `toIcal`, which every theorem above is about -/
+theorem body_to_ical (c : Comp) (sorted : Bool) : Bodies.toIcalP c sorted = Bodies.liftL (toIcal sorted c) :=
+  Bodies.to_ical_eq c sorted
 
 end ICal.C10
